@@ -1154,6 +1154,24 @@ def rule_r12(repo, run):
               "ClassNode.add_namespace replaces NamespaceMixin.add_namespace(name, ...) to refuse namespaces in classes but "
               "takes %d positional argument(s): the call add_namespace(name) ends in TypeError and the intended message "
               "is unreachable" % opos, am.loc(over))
+    # a value-less attribute (+rank) is stored as True; int(True) is 1, so the conversion alone does not reject it
+    kv = 0
+    for q, fn in sorted(gm.functions().items()):
+        for c in ast.walk(fn):
+            if isinstance(c, ast.Call) and pyflow.is_name(c.func, "int") and c.args and isinstance(c.args[0], ast.Subscript) \
+                    and "attrs" in str(gm.seg(c.args[0].value)) and pyflow.const_str(c.args[0].slice):
+                attr = pyflow.const_str(c.args[0].slice)
+                kv += 1
+                aliases = {str(gm.seg(c.args[0]))}
+                for a in ast.walk(fn):
+                    if isinstance(a, ast.Assign) and isinstance(a.targets[0], ast.Name) and str(gm.seg(a.value)) == str(gm.seg(c.args[0])):
+                        aliases.add(a.targets[0].id)
+                guards = [t for t, pol in pyflow.early_exit_guards(fn, c)] + [t for t, pol in pyflow.dominating_tests(c, stop=fn) if not pol]
+                ok = any(any(str(gm.seg(t)) == "%s is True" % al for al in aliases) for t in guards)
+                run.check(R, "generate.%s:int(attrs[%s]):valueless" % (q, attr), ok,
+                          "`+%s` without a value is stored as True and int(True) == 1: the attribute is silently taken as %s=1 "
+                          "unless `is True` is rejected before the conversion" % (attr, attr), gm.loc(c))
+    run.floor(R, "integer-valued attributes", kv, 1)
     # stated range
     k = 0
     for q, fn in sorted(gm.functions().items()):
